@@ -36,24 +36,62 @@ theorem prefix_right_of_tighter_full_false :
   decide
 
 /-- the full statement is false in a second way (known findings `dropped:filter-then-over`, `dropped:cast-then-accessor`):
-**a tighter suffix operator written behind a looser one is reduced away** — for every operand, every pair of the six
-suffix levels of the current table (`[x]`, `.name`, `:name`, OVER, FILTER, `::type`) and whatever the two suffixes carry,
+**a tighter suffix operator written behind a looser one is reduced away** — for every operand, every pair of suffix
+levels of the current table (`[x]`, `.name`, `:name`, OVER, FILTER, `::type`) and whatever the two suffixes carry,
 `make_tree` answers the bare operand and leaves one item over: `a::int.b` and `sum(a) filter (…) over (…)` are answered as
-`a` and `sum(a)`.  (The other order is `leftover_empty`.) -/
-theorem tighter_suffix_behind_looser_full_false (i j : Nat) (hi : i < j) (hj : j ≤ 5) (a p q : Raw) (n m : String) :
-    (makeTree (OpJson.builders Gen.assocSet) Gen.levels [.val a, .op ⟨j, n, p⟩, .op ⟨i, m, q⟩]).head = some a ∧
-    (makeTree (OpJson.builders Gen.assocSet) Gen.levels [.val a, .op ⟨j, n, p⟩, .op ⟨i, m, q⟩]).leftover.length = 1 := by
-  have hj' : j = 1 ∨ j = 2 ∨ j = 3 ∨ j = 4 ∨ j = 5 := by omega
-  rcases hj' with rfl | rfl | rfl | rfl | rfl
-  all_goals
-    have hi' : i = 0 ∨ i = 1 ∨ i = 2 ∨ i = 3 ∨ i = 4 := by omega
-    rcases hi' with rfl | rfl | rfl | rfl | rfl
-    all_goals first | omega | exact ⟨rfl, rfl⟩
+`a` and `sum(a)`.  (The other order is `leftover_empty`.)  Quantified over the regenerated table (tighter = earlier in it). -/
+theorem tighter_suffix_behind_looser_full_false :
+    ∀ lj ∈ Gen.levels, ∀ li ∈ Gen.levels, lj.kind = .suf → li.kind = .suf → Gen.levels.idxOf li < Gen.levels.idxOf lj →
+    ∀ (a p q : Raw) (n m : String),
+    (makeTree (OpJson.builders Gen.assocSet) Gen.levels [.val a, .op ⟨lj.id0, n, p⟩, .op ⟨li.id0, m, q⟩]).head = some a ∧
+    (makeTree (OpJson.builders Gen.assocSet) Gen.levels [.val a, .op ⟨lj.id0, n, p⟩, .op ⟨li.id0, m, q⟩]).leftover.length = 1 := by
+  intro lj hj li hi kj ki hlt a p q n m
+  simp only [Gen.levels, List.mem_cons, List.mem_nil_iff, or_false] at hj hi
+  repeat' (rcases hj with rfl | hj)
+  all_goals first
+    | (exfalso; revert kj; decide)
+    | subst hj
+    | skip
+  all_goals first
+    | (exfalso; revert kj; decide)
+    | skip
+  all_goals (repeat' (rcases hi with rfl | hi))
+  all_goals first
+    | (exfalso; revert ki hlt; decide)
+    | subst hi
+    | skip
+  all_goals first
+    | (exfalso; revert ki hlt; decide)
+    | exact ⟨rfl, rfl⟩
 
-/-- the six levels the statement above speaks of are the suffix levels of the current table, and there are no others -/
-theorem suffix_levels_are_the_first_six :
-    (Gen.levels.take 6).all (fun l => l.kind == Kind.suf) = true ∧ (Gen.levels.drop 6).all (fun l => l.kind != Kind.suf) = true := by
-  decide
+/-- the hypotheses are met: `::` (level id 5) is a looser suffix than `.name` (level id 1) in the current table -/
+example : (⟨Kind.suf, 5, 0, 0⟩ : Level) ∈ Gen.levels ∧ (⟨Kind.suf, 1, 0, 1⟩ : Level) ∈ Gen.levels := by decide
+
+/-- … and the first way in general: **a prefix operator written to the right of any tighter binary operator** is taken
+for the operand, for every pair of levels of the current table, all operands and whatever the operator tokens carry -/
+theorem prefix_right_of_tighter_full_false_all :
+    ∀ lb ∈ Gen.levels, ∀ lp ∈ Gen.levels, lb.kind = .bin → lp.kind = .pre → Gen.levels.idxOf lb < Gen.levels.idxOf lp →
+    ∀ (a c pb pp : Raw) (nb np : String),
+    (makeTree (OpJson.builders Gen.assocSet) Gen.levels
+      [.val a, .op ⟨lb.id0, nb, pb⟩, .op ⟨lp.id0, np, pp⟩, .val c]).leftover.length = 1 := by
+  intro lb hb lp hp kb kp hlt a c pb pp nb np
+  simp only [Gen.levels, List.mem_cons, List.mem_nil_iff, or_false] at hb hp
+  repeat' (rcases hb with rfl | hb)
+  all_goals first
+    | (exfalso; revert kb; decide)
+    | subst hb
+    | skip
+  all_goals first
+    | (exfalso; revert kb; decide)
+    | skip
+  all_goals (repeat' (rcases hp with rfl | hp))
+  all_goals first
+    | (exfalso; revert kp hlt; decide)
+    | subst hp
+    | skip
+  all_goals first
+    | (exfalso; revert kp hlt; decide)
+    | rfl
 
 /-- **Simplification loses no content**: every string, number and boolean leaf of the raw tree the parse actions
 built is a leaf of what `scrub` returns — for every raw tree of any size, both `calls=` modes and every `fmap` —
